@@ -105,6 +105,11 @@ Theorem c14_cut_exact : forall (A : Type) n (l l' : list A), Permutation l l' ->
   length (py_slice_to n l') = n.
 Proof. exact @cut_exact. Qed.
 
+(* any such cut never exceeds the configured size (leaders <= leader_size) *)
+Theorem c14_cut_le : forall (A : Type) n (l l' : list A), Permutation l l' ->
+  (length (py_slice_to n l') <= n)%nat.
+Proof. exact @cut_le. Qed.
+
 (* GA: never above population_size; equal unless offspring_size + 1 < population_size *)
 Theorem c14_ga_population_size : forall (A : Type) pop off (offspring sorted : list A) (fittest : A),
   (off <= length offspring)%nat -> Permutation (offspring ++ [fittest]) sorted ->
